@@ -238,7 +238,7 @@ add("C18", "exact-SVD reference on planted low-rank stacks over stack chunkings 
     "subsets; the deprecated tilt_range keyword.",
     "Stacks with more than 500 features take the randomised solver whose seed is drawn from numpy's global RNG; with a "
     "planted spectral gap its error is far below the 2e-3 tolerance; without a gap and more than 20 images it is inexact: "
-    "open finding pca.randomized-solver-inexact (KNOWN-FINDING, bounded predicate).",
+    "open finding pca.randomized-solver-inexact (KNOWN-FINDING, recognised by signature: under-estimation only and no lower than 0.9 x an independent numpy sketch of rank k+10 on the same data).",
     "DESIGN.md section 4 C18")
 
 add("C19", "reference interpreter for generated pipeline expression trees + algebraic/metamorphic laws",
